@@ -1155,7 +1155,9 @@ def mk_elem(eng, it):
     if tag == 'flatten':
         return mk_elem(eng, mk_elem(eng, it[1]))
     if tag == 'range':
-        return T('index', it)
+        # the position counter of an index loop over a collection is the counter of walking that collection
+        v = index_view(it)
+        return T('index', v if v is not None and it[1].tag == 'const' and it[1][1] == 0 else it)
     if tag == 'phi':
         return mk_phi([mk_elem(eng, x) for x in it.args])
     if tag == 'adapt' and it[1] in ELEMENT_PRESERVING and len(it.args) >= 2:
@@ -1206,6 +1208,54 @@ def mk_via(name, t):
     return T('via', name, t)
 
 
+def index_view(r):
+    """the iterator an index range stands for: `0..x.len()` walks x, `0..min(x.len(), y.len())` walks x and y together (zip),
+    `1..x.len()` walks x.iter().skip(1); None for any other range"""
+    if r.tag != 'range':
+        return None
+    lo, hi = r[1], r[2]
+    if not (lo.tag == 'const' and isinstance(lo[1], int) and not isinstance(lo[1], bool) and lo[1] >= 0):
+        return None
+
+    def colls(h):
+        while h.tag == 'cast':
+            h = h[2]
+        if h.tag == 'call' and h[1].split('::')[-1] == 'len' and len(h[2]) == 1:
+            c = h[2][0]
+            return [c]
+        if h.tag == 'call' and h[1].split('::')[-1] == 'min' and len(h[2]) == 2:
+            a, b = colls(h[2][0]), colls(h[2][1])
+            if a is None or b is None:
+                return None
+            return a + b
+        return None
+    cs = colls(hi)
+    if not cs:
+        return None
+    view = cs[0]
+    for c in cs[1:]:
+        view = T('zip', view, c)
+    if lo[1] > 0:
+        view = T('adapt', 'skip', view, lo)
+    return view
+
+
+def _view_component(view, coll):
+    """is `coll` one of the collections walked by the view (through zip / skip)?"""
+    v = view
+    skip = False
+    if v.tag == 'adapt' and v[1] == 'skip':
+        v, skip = v[2], True
+    stack = [v]
+    while stack:
+        x = stack.pop()
+        if x.tag == 'zip':
+            stack.extend([x[1], x[2]])
+        elif _same_collection(x, coll):
+            return True, skip
+    return False, skip
+
+
 def _same_collection(a, b):
     while a.tag == 'mut':
         a = a[1]
@@ -1216,13 +1266,13 @@ def _same_collection(a, b):
 
 def mk_elemat(coll, i):
     # `for i in 0..x.len() { .. x[i] .. }` visits each element of x in order, like `for e in x`; from 1: like `x.iter().skip(1)`
-    if i.tag == 'index' and i[1].tag == 'range' and CURRENT is not None:
-        r = i[1]
-        lo, hi = r[1], r[2]
-        if lo.tag == 'const' and lo[1] in (0, 1) and not isinstance(lo[1], bool) and hi.tag == 'call' and hi[1].split('::')[-1] == 'len' and len(hi[2]) == 1 \
-                and _same_collection(hi[2][0], coll):
-            el = mk_elem(CURRENT, coll)
-            return el if lo[1] == 0 else mk_via('skip', el)
+    if i.tag == 'index' and CURRENT is not None:
+        view = index_view(i[1]) if i[1].tag == 'range' else i[1]
+        if view is not None and view.tag != 'range':
+            ok, skip = _view_component(view, coll)
+            if ok:
+                el = mk_elem(CURRENT, coll)
+                return mk_via('skip', el) if skip else el
     return T('elemat', coll, i)
 
 
